@@ -436,3 +436,105 @@ def write_programs(path, designs):
     with open(path, "w") as f:
         for lines in designs:
             f.write("\n".join(lines) + "\n")
+
+
+# ---------------------------------------------------------------------------
+# decorations (property C11): behaviour-neutral rewrites of a design program
+# ---------------------------------------------------------------------------
+DEF_OPS = {"lit", "not", "bin", "slice", "bit", "zext", "oext", "sext", "mux", "var", "reg"}
+MUT_OPS = {"set", "setslice", "setbit", "close", "loopvar"}
+
+
+def decorate(lines, seed):
+    """returns (decorated program lines, list of decoration kinds applied)"""
+    rng = random.Random(seed)
+    head, body = lines[0], [l for l in lines[1:]]
+    applied = []
+    mutable = set()
+    for l in body:
+        t = l.split()
+        if t[0] in MUT_OPS:
+            mutable.add(t[1])
+    # 5. handle lifetime pattern
+    body = [l for l in body if not (l.startswith("drop ") or l == "dropall")]
+    # 1. names
+    out = []
+    for l in body:
+        t = l.split()
+        if t[0] == "name" and rng.random() < 0.5:
+            applied.append("unname"); continue
+        out.append(l)
+        if t[0] in DEF_OPS and rng.random() < 0.35:
+            out.append(f"name {t[1]} dn_{t[1]}"); applied.append("name")
+        if t[0] in DEF_OPS and rng.random() < 0.08:
+            out.append(f"attr {t[1]}"); applied.append("attr")
+        if t[0] in DEF_OPS and rng.random() < 0.08:
+            out.append(f"tap {t[1]}"); applied.append("tap")
+    body = out
+    # 2. pass-through copies of immutable temporaries
+    out, ren = [], {}
+    for l in body:
+        t = l.split()
+        if t[0] in ("name", "attr", "tap", "drop"):
+            out.append(l); continue
+        # rename uses (all operand positions except the defined name)
+        if t[0] in DEF_OPS or t[0] in ("out",):
+            t = t[:2] + [ren.get(x, x) for x in t[2:]]
+        elif t[0] in ("set", "close"):
+            t = t[:2] + [ren.get(x, x) for x in t[2:]]
+        elif t[0] in ("setslice", "setbit"):
+            t = t[:-1] + [ren.get(t[-1], t[-1])]
+        elif t[0] in ("if", "elif"):
+            t = [t[0], ren.get(t[1], t[1])]
+        out.append(" ".join(t))
+        if t[0] in DEF_OPS and t[1] not in mutable and t[0] != "reg" and rng.random() < 0.2:
+            cp = f"{t[1]}_cp"
+            out.append(f"var {cp} {t[1]}")
+            ren[t[1]] = cp
+            applied.append("copy")
+    body = out
+    # 3. areas / entities around top-level ranges
+    depth_if, depth_area = 0, 0
+    tops = []
+    for i, l in enumerate(body):
+        t = l.split()
+        if depth_if == 0 and depth_area == 0 and t[0] not in ("elif", "else", "endif", "endarea"):
+            tops.append(i)
+        if t[0] == "if": depth_if += 1
+        elif t[0] == "endif": depth_if -= 1
+        elif t[0] == "area": depth_area += 1
+        elif t[0] == "endarea": depth_area -= 1
+    inserts = {}
+    if len(tops) > 3:
+        for _ in range(rng.choice([0, 1, 1, 2])):
+            a = rng.randrange(0, len(tops) - 1)
+            b = rng.randrange(a + 1, min(len(tops), a + 8))
+            ia, ib = tops[a], tops[b]
+            # ranges must not overlap earlier inserts and must not contain out statements' defs problems: fine
+            if any(ia <= k <= ib for k in inserts):
+                continue
+            # the range must be balanced w.r.t. if/area (it is: both ends are top-level positions)
+            inserts[ia] = f"area dec{len(inserts)}{' entity' if rng.random() < 0.5 else ''}"
+            inserts[ib] = "endarea"
+            applied.append("area")
+    out = []
+    for i, l in enumerate(body):
+        if i in inserts:
+            out.append(inserts[i])
+        out.append(l)
+    body = out
+    # new handle-lifetime pattern
+    m = rng.random()
+    if m < 0.4:
+        body.append("dropall"); applied.append("dropall")
+    elif m < 0.75:
+        names = []
+        for l in body:
+            t = l.split()
+            if t[0] in DEF_OPS and t[1] not in mutable:
+                names.append(t[1])
+        for n in names:
+            if rng.random() < 0.5:
+                body.append(f"drop {n}")
+        applied.append("drop")
+    return [head] + body, applied
